@@ -89,15 +89,12 @@ impl<K, V, const MAX_HEIGHT: usize> Node<K, V, MAX_HEIGHT> {
         assert!(level < self.pointers.len());
         #[cfg(blue_verif)]
         verif::yield_point(5);
-        let swapped = self.pointers[level].compare_exchange(
+        self.pointers[level].compare_exchange(
             old_node,
             new_node,
             Ordering::SeqCst,
             Ordering::SeqCst,
-        ) == Ok(old_node);
-        #[cfg(blue_verif)]
-        verif::yield_point(6);
-        swapped
+        ) == Ok(old_node)
     }
 }
 
